@@ -1,7 +1,10 @@
-(* C11 -- the translated constant of the Thread messaging model. *)
+(* C11 -- the translated constants of the Thread messaging model. *)
 From Coq Require Import NArith.
 From Muscle Require Import Gen.Consts.
 
 (* sizeof(bytes) in Thread::WaitForNextMessageAux: how many signal bytes one call absorbs; regenerated from
    system/Thread.cpp on every run (gen/gen_consts.py, section C11) *)
 Definition ABS : nat := N.to_nat c_thread_signal_absorb_size.
+
+(* MUSCLE_NO_LIMIT, at which WaitCondition's pending-notification count saturates (support/MuscleSupport.h) *)
+Definition NOLIM : N := c_MUSCLE_NO_LIMIT.
